@@ -49,6 +49,7 @@ def check(m, run):
     n_tn = len(run.obs)
     try:
         _sd.tn3(m, run)
+        _sd.vn2(m, run)        # ... and a normalised tangent / normal is v / |v| for every v (the real vector_normalize on symbolic vectors)
     except AnalysisError as ex:
         run.error(str(ex))
     tn_ok = len(run.obs) > n_tn and all(o.ok for o in run.obs[n_tn:])
